@@ -49,16 +49,11 @@ fn small_wires(max_len: usize, decos: &[Deco], with_garbage: bool) -> Vec<WireSp
                 garbage,
                 corrupt: None,
             });
-            // the announced length with leading zeros (1*DIGIT)
-            if decos.contains(&Deco::LeadingZeros) {
-                v.push(WireSpec {
-                    framing: Framing::Length,
-                    len,
-                    chunks: vec![],
-                    deco: Deco::LeadingZeros,
-                    garbage,
-                    corrupt: None,
-                });
+            // the announced length with leading zeros (1*DIGIT), and with blanks behind it
+            for d in [Deco::LeadingZeros, Deco::SpaceBeforeCrlf] {
+                if decos.contains(&d) {
+                    v.push(WireSpec { framing: Framing::Length, len, chunks: vec![], deco: d, garbage, corrupt: None });
+                }
             }
         }
         v.push(WireSpec {
